@@ -119,10 +119,10 @@ REG["C17"] = dict(
 )
 
 REG["C18"] = dict(
-    harnesses=[H(P, "VerifH_C18_aadInjective"), H(P, "VerifH_C18_envelope")],
-    explanation="AES-GCM is abstracted as an ideal AEAD (Open(k,n,Seal(k,n,p,a),a)=p, anything else fails, ciphertext bytes are fresh symbols). (K1) makeAAD is injective over the module shapes the writer and reader use (footer; five column-level modules with (row group, column); four page-level modules with (row group, column, page)) for all int16 ordinals and equal prefix/file id: two different modules never share an AAD, so a module transplanted to another page, column or row group is opened with a different AAD. (K2) encryptModule/decryptModule framing: round trip for symbolic plaintext, key, nonce and AAD; truncation at any point, any change of any single byte (length word included), another module's AAD or a wrong key yield an error and never a panic; trailing bytes are ignored. Counterexamples are re-enacted natively with the real AES-GCM.",
+    harnesses=[H(P, "VerifH_C18_aadInjective"), H(P, "VerifH_C18_envelope"), H(P, "VerifH_C18_ordinalsThroughSeeks")],
+    explanation="AES-GCM is abstracted as an ideal AEAD (Open(k,n,Seal(k,n,p,a),a)=p, anything else fails, ciphertext bytes are fresh symbols). (K1) makeAAD is injective over the module shapes the writer and reader use (footer; five column-level modules with (row group, column); four page-level modules with (row group, column, page)) for all int16 ordinals and equal prefix/file id: two different modules never share an AAD, so a module transplanted to another page, column or row group is opened with a different AAD. (K2) encryptModule/decryptModule framing: round trip for symbolic plaintext, key, nonce and AAD; truncation at any point, any change of any single byte (length word included), another module's AAD or a wrong key yield an error and never a panic; trailing bytes are ignored. Counterexamples are re-enacted natively with the real AES-GCM. (K3) ordinal agreement: the FilePages state machine of C08 with decryption state, the page decryption replaced by a model that authenticates with the page ordinal the reader currently holds: after every history of seeks and reads the reader opens the page at stream position i with ordinal i, the one the writer sealed it with; replayed literally on a real encrypted file.",
     bounds={"quick": "AAD prefix 0..2 bytes, file id 2 bytes; plaintext 0..3 symbolic bytes, 16-byte symbolic key, 2-byte AAD", "thorough": "same"},
-    outside=["AES-GCM itself, key retrieval", "secrecy of statistics in the footer (needs the whole writer)", "ordinal agreement between writer and reader through seeks (DESIGN K3 not built yet)", "footer signing (signFooter/verifyFooterSignature)"],
+    outside=["AES-GCM itself, key retrieval", "secrecy of statistics in the footer (needs the whole writer)", "writer-side ordinal assignment (only the reader side of the agreement is executed; the writer seals page i of a chunk with ordinal i by construction of its page counter)", "footer signing (signFooter/verifyFooterSignature)"],
     assumptions=["ideal-AEAD stubs for crypto/aes.NewCipher, crypto/cipher.NewGCM and crypto/rand.Reader (arbitrary nonce bytes)"],
 )
 
